@@ -26,8 +26,8 @@ Fixpoint keys_nodup (l : list str) : bool :=
   match l with [] => true | k :: r => negb (mem_str k r) && keys_nodup r end.
 
 (* the value set of C01 (limits, lengths, membership, element-wise) in canonical internal form, plus: floats are
-   finite, struct keys are distinct, and the members a struct must carry are present (all of them on the node,
-   the mandatory ones on the client, which may send partial structs) *)
+   finite, struct keys are distinct, and the mandatory members of a struct are present (optional members may be
+   missing, on the node as well as on the client: validate accepts and export_value transports such values) *)
 Fixpoint valid (d : dtype) (v : pyval) {struct d} : bool :=
   match d, v with
   | TFloat mn mx _ _, PFloat f => fis_finite f && in_setb d v
@@ -48,7 +48,7 @@ Fixpoint valid (d : dtype) (v : pyval) {struct d} : bool :=
                     | [] => false
                     | (n, d1) :: ms' => if str_eqb (fst p) n then valid d1 (snd p) else find ms'
                     end) ms) kv &&
-      forallb (fun n => mem_str n (map fst kv) || (client && mem_str n opt)) (map fst ms)
+      forallb (fun n => mem_str n (map fst kv) || mem_str n opt) (map fst ms)
   | TArray _ _ _, _ | TTuple _, _ | TStruct _ _ _, _ => false
   | _, _ => in_setb d v
   end.
@@ -60,7 +60,7 @@ Proof.
 Qed.
 Lemma valid_struct ms o c kv : valid (TStruct ms o c) (PDict kv) =
   keys_nodup (map fst kv) && forallb (entry_ok valid ms) kv &&
-  forallb (fun n => mem_str n (map fst kv) || (c && mem_str n o)) (map fst ms).
+  forallb (fun n => mem_str n (map fst kv) || mem_str n o) (map fst ms).
 Proof. reflexivity. Qed.
 
 (* python == on canonical values *)
@@ -391,12 +391,12 @@ Proof.
       rewrite <- Hk in Hall. clear - Hall. induction l0 as [|p l0 IH]; cbn in *; [reflexivity|].
       apply andb_prop in Hall. destruct Hall as [Hp Hall]. rewrite Hp. apply IH, Hall. }
     exists (PDict js), (PDict ws), (PDict vs). cbn [dt_export dt_import dt_validate].
-    assert (Hreq : forall (l : list (str * pyval)) allow, keys l = keys kv ->
-              forallb (fun n => mem_str n (map fst l) || ((c || allow) && mem_str n o)) (map fst ms) = true).
-    { intros l0 allow Hk. unfold keys in Hk. rewrite Hk. revert H3. apply forallb_imp. intros n Hn.
+    assert (Hreq : forall (l : list (str * pyval)), keys l = keys kv ->
+              forallb (fun n => mem_str n (map fst l) || ((c || true) && mem_str n o)) (map fst ms) = true).
+    { intros l0 Hk. unfold keys in Hk. rewrite Hk. revert H3. apply forallb_imp. intros n Hn.
       apply orb_prop in Hn. destruct Hn as [Hn|Hn]; [rewrite Hn; reflexivity|].
-      apply andb_prop in Hn. destruct Hn as [Hc Hn]. rewrite Hc, Hn. cbn. apply orb_true_r. }
-    rewrite (struct_check_valid ms o c false kv) by (auto using Hdecl, Hreq).
+      rewrite Hn, orb_true_r. cbn. apply orb_true_r. }
+    rewrite (struct_check_valid ms o c true kv) by (auto using Hdecl, Hreq).
     cbn [bind is_dict negb dict_items]. rewrite G1. cbn [bind].
     rewrite (struct_check_valid ms o c true js) by (auto using Hdecl, Hreq).
     cbn [bind is_dict negb dict_items]. rewrite G2. cbn [bind py_truthy].
@@ -406,7 +406,7 @@ Proof.
     { clear - G4. induction G4 as [|p q kv0 vs0 [Hpq _] _ IH]; cbn; [reflexivity|f_equal; [symmetry; exact Hpq|exact IH]]. }
     assert (Hm : forallb (fun n => mem_str n (map fst vs) || (true && mem_str n o)) (map fst ms) = true).
     { rewrite Kvs. revert H3. apply forallb_imp. intros n Hn. apply orb_prop in Hn.
-      destruct Hn as [Hn|Hn]; [rewrite Hn; reflexivity|]. apply andb_prop in Hn. destruct Hn as [_ Hn].
+      destruct Hn as [Hn|Hn]; [rewrite Hn; reflexivity|].
       rewrite Hn. cbn. apply orb_true_r. }
     rewrite (check_missing_valid ms o vs Hm).
     cbn. repeat split; [constructor; exact G4|discriminate].
@@ -415,21 +415,16 @@ Qed.
 End RT.
 
 (* ------------------------------------------------------------------ general forms of the defects of the pinned tree *)
-(* a one-member tuple: its text "(x)" denotes x itself; whenever x is not a sized object the text is refused *)
-Lemma one_tuple_text_refused C d1 t w :
-  lit_eval C t = Some w -> py_len w = None -> from_string C (TTuple [d1]) (PP [t]) = Err EWrongType.
+(* a one-member tuple is written (x,): python reads it back as a 1-tuple, and from_string hands it to __call__ *)
+Lemma one_tuple_text_accepted C d1 t w y :
+  lit_eval C t = Some w -> dt_call d1 w = Ok y -> from_string C (TTuple [d1]) (PT1 t) = Ok (PTuple [y]).
 Proof.
   intros H1 H2. unfold from_string, generic_from_string. cbn [lit_eval]. rewrite H1.
-  cbn [dt_call length]. unfold tuple_check. rewrite H2. destruct (is_str_bytes_dict w); reflexivity.
+  cbn [dt_call length]. unfold tuple_check. cbn. rewrite H2. reflexivity.
 Qed.
 
-(* the client side of a string type without maxchars limit but with a minimum length accepts exactly that length *)
-Lemma client_string_collapses minc u : minc <> 0%Z ->
-  client_of (TString minc UNLIMITED u) = Ok (TString minc minc u).
-Proof.
-  intros H. cbn [client_of]. replace (UNLIMITED =? UNLIMITED)%Z with true by reflexivity.
-  destruct (Z.eqb_spec minc 0); [contradiction|reflexivity].
-Qed.
+Lemma one_tuple_to_tree C d1 x t : to_tree C d1 x = Ok t -> to_tree C (TTuple [d1]) (PTuple [x]) = Ok (PT1 t).
+Proof. intros H. cbn. rewrite H. reflexivity. Qed.
 
 (* setParameterFromString(text): from_string, export_value, then the node's import_value + validate: whenever the text
    is accepted with a valid value w, the node ends up with a value equal to w *)
